@@ -23,6 +23,7 @@
 package rules
 
 import (
+	"bytes"
 	"fmt"
 	"strings"
 	"unicode/utf8"
@@ -388,6 +389,36 @@ func (_this *Context) ValidateContentsComment(contents []byte) {
 func (_this *Context) ValidateContentsCommentString(contents string) {
 	// TODO: More specific validation
 	_this.ValidateContentsStringlike(contents)
+}
+
+// Comment contents must be expressible in a document: a single line comment
+// ends at the first line break, and the delimiters of nested multiline comments
+// must be balanced.
+func (_this *Context) ValidateComment(isMultiline bool, contents []byte) {
+	_this.ValidateContentsString(contents)
+	if !isMultiline {
+		if bytes.IndexByte(contents, '\n') >= 0 || bytes.HasSuffix(contents, []byte{'\r'}) {
+			panic(fmt.Errorf("single line comment [%s] contains a line break", contents))
+		}
+		return
+	}
+	depth := 0
+	for i := 0; i < len(contents)-1; i++ {
+		switch {
+		case contents[i] == '/' && contents[i+1] == '*':
+			depth++
+			i++
+		case contents[i] == '*' && contents[i+1] == '/':
+			depth--
+			i++
+			if depth < 0 {
+				panic(fmt.Errorf("multiline comment [%s] contains an unbalanced comment terminator", contents))
+			}
+		}
+	}
+	if depth != 0 || bytes.HasSuffix(contents, []byte{'/'}) && !bytes.HasSuffix(contents, []byte("*/")) {
+		panic(fmt.Errorf("multiline comment [%s] contains an unterminated nested comment", contents))
+	}
 }
 
 func (_this *Context) ValidateContentsRID(contents []byte) {
